@@ -109,6 +109,13 @@ func (c *Catalog) tagsFromTagsDirective(d *directive.Directive) ([]*Tag, *jerr.J
 	return tt, nil
 }
 
+// CheckTags reports what is wrong with a Tags directive (annotation, no parameter,
+// a tag that no TAG directive declares).
+func (c *Catalog) CheckTags(d *directive.Directive) *jerr.JApiError {
+	_, je := c.tagsFromTagsDirective(d)
+	return je
+}
+
 func checkTagsDirective(d *directive.Directive) *jerr.JApiError {
 	if d.Annotation != "" {
 		return d.KeywordError(jerr.AnnotationIsForbiddenForTheDirective)
